@@ -855,7 +855,7 @@ func evalPartial(node *jparse.PartialNode, data reflect.Value, env *environment)
 		callableName: callableName{
 			name: fn.Name() + "_partial",
 		},
-		fn:      fn,
+		fn:      callableWithContext(fn, data),
 		args:    node.Args,
 		context: data,
 		env:     env,
@@ -866,6 +866,29 @@ func evalPartial(node *jparse.PartialNode, data reflect.Value, env *environment)
 
 type nameSetter interface {
 	SetName(string)
+}
+
+// callableForCall returns the Callable to use for a single
+// call. Go callables live in the process-wide base environment
+// (or an expression's registry), so the per-call name and
+// context are stored in a shallow copy.
+func callableForCall(fn jtypes.Callable) jtypes.Callable {
+	if g, ok := fn.(*goCallable); ok {
+		c := *g
+		return &c
+	}
+	return fn
+}
+
+// callableWithContext is like callableForCall but also sets
+// the context item, for callers that invoke the function
+// without going through evalFunctionCall.
+func callableWithContext(fn jtypes.Callable, data reflect.Value) jtypes.Callable {
+	fn = callableForCall(fn)
+	if setter, ok := fn.(contextSetter); ok {
+		setter.SetContext(data)
+	}
+	return fn
 }
 
 type contextSetter interface {
@@ -882,6 +905,12 @@ func evalFunctionCall(node *jparse.FunctionCallNode, data reflect.Value, env *en
 	if !ok {
 		return undefined, newEvalError(ErrNonCallable, node.Func, nil)
 	}
+
+	// Built-in and extension functions are shared by every
+	// expression and every evaluation. Give this call its own
+	// copy to carry the caller's name and context item instead
+	// of writing them into the shared object.
+	fn = callableForCall(fn)
 
 	if setter, ok := fn.(nameSetter); ok {
 		if sym, ok := node.Func.(*jparse.VariableNode); ok {
@@ -943,7 +972,7 @@ func evalFunctionApplication(node *jparse.FunctionApplicationNode, data reflect.
 	// If the left hand side is not callable, call the right
 	// hand side using the left hand side as the argument.
 	if !jtypes.IsCallable(lhs) {
-		return f2.Call([]reflect.Value{lhs})
+		return callableWithContext(f2, data).Call([]reflect.Value{lhs})
 	}
 
 	// Otherwise, combine both sides into a single callable.
